@@ -1,23 +1,27 @@
 // Environment model for the Stats public API (the singleton with its socket thread is the subject of C19 only):
-// a small counter table; every update is an observable event.
+// a small counter table indexed by key id; every update is an observable event.
 #include "prelude.h"
 #include "oomd/Stats.h"
 #include "oomd/include/CoreStats.h"
 namespace {
-struct Ent { std::string k; int v; };
-Ent g_tab[8]; int g_n = 0;
+int g_val[5]; bool g_has[5];
 int keyId(const std::string& k) {
   if (k == Oomd::CoreStats::kKillsKey) return 1;
   if (k == Oomd::CoreStats::kNumDropInAdds) return 2;
   if (k == Oomd::CoreStats::kNumDropInFired) return 3;
-  return 9;
+  return 4;   // any other key
 }
-Ent* find(const std::string& k) { for (int i = 0; i < g_n; i++) if (g_tab[i].k == k) return &g_tab[i]; if (g_n >= 8) { vf_bound("stats table"); return nullptr; } g_tab[g_n].k = k; g_tab[g_n].v = 0; return &g_tab[g_n++]; }
 }
 namespace Oomd {
-std::unordered_map<std::string, int> getStats() { std::unordered_map<std::string, int> m; for (int i = 0; i < g_n; i++) m[g_tab[i].k] = g_tab[i].v; return m; }
-int incrementStat(const std::string& key, int val) { Ent* e = find(key); if (e) e->v += val; vf_event(EV_STAT, keyId(key), val, 0, e ? e->v : 0); return 0; }
-int setStat(const std::string& key, int val) { Ent* e = find(key); if (e) e->v = val; vf_event(EV_STAT, keyId(key), val, 1, val); return 0; }
-int resetStats() { for (int i = 0; i < g_n; i++) g_tab[i].v = 0; return 0; }
+std::unordered_map<std::string, int> getStats() {
+  std::unordered_map<std::string, int> m;
+  if (g_has[1]) m[CoreStats::kKillsKey] = g_val[1];
+  if (g_has[2]) m[CoreStats::kNumDropInAdds] = g_val[2];
+  if (g_has[3]) m[CoreStats::kNumDropInFired] = g_val[3];
+  return m;
 }
-extern "C" int vf_stat_value(int id) { for (int i = 0; i < g_n; i++) if (keyId(g_tab[i].k) == id) return g_tab[i].v; return 0; }
+int incrementStat(const std::string& key, int val) { int id = keyId(key); g_has[id] = true; g_val[id] += val; vf_event(EV_STAT, id, val, 0, g_val[id]); return 0; }
+int setStat(const std::string& key, int val) { int id = keyId(key); g_has[id] = true; g_val[id] = val; vf_event(EV_STAT, id, val, 1, val); return 0; }
+int resetStats() { for (int i = 0; i < 5; i++) g_val[i] = 0; return 0; }
+}
+extern "C" int vf_stat_value(int id) { return (id >= 0 && id < 5) ? g_val[id] : 0; }
